@@ -144,7 +144,8 @@ def tlc_or_die(wd, module, **kw):
     or a trace validation whose verdict is communicated through printed tags)."""
     res = tlc(wd, module, **kw)
     if res.rc != 0 or not res.finished:
-        raise Inconclusive("TLC did not complete cleanly on %s (rc=%d):\n%s" % (module, res.rc, res.out[-6000:]))
+        i = res.out.find("Error:")
+        raise Inconclusive("TLC did not complete cleanly on %s (rc=%d):\n%s\n...\n%s" % (module, res.rc, res.out[i:i + 2500] if i >= 0 else "", res.out[-1500:]))
     return res
 
 
